@@ -22,6 +22,8 @@ use std::time::{Duration, Instant};
 pub const KIND_LOAD: u32 = 1;
 pub const KIND_LOAD_WALK: u32 = 2;
 pub const KIND_LOAD_WALK_NOIMG: u32 = 3;
+/// write the input to a temporary file and load it with `AsepriteFile::read_file`
+pub const KIND_LOAD_FILE: u32 = 4;
 
 #[derive(Clone, Debug, PartialEq, Eq, Hash)]
 pub enum Status {
@@ -97,7 +99,26 @@ fn run_task(kind: u32, budget: u64, bytes: &[u8]) {
     alloc::PEAK.store(base, R);
     alloc::LARGEST.store(0, R);
     alloc::LIMIT.store(base.saturating_add(budget.min(i64::MAX as u64 / 2) as i64), R);
-    let loaded = load(bytes);
+    let loaded = if kind == KIND_LOAD_FILE {
+        let path = std::env::temp_dir().join(format!("mcw-{}.aseprite", std::process::id()));
+        match std::fs::write(&path, bytes) {
+            Ok(()) => {
+                let r = std::panic::catch_unwind(|| asefile::AsepriteFile::read_file(&path));
+                let _ = std::fs::remove_file(&path);
+                match r {
+                    Ok(Ok(f)) => Loaded::Ok(f),
+                    Ok(Err(e)) => Loaded::Err(e),
+                    Err(_) => Loaded::Panic(observe::take_panic()),
+                }
+            }
+            Err(e) => {
+                send_result(9, 0, 0, 0, &format!("machinery: cannot write temp file: {}", e));
+                return;
+            }
+        }
+    } else {
+        load(bytes)
+    };
     let peak = (alloc::PEAK.load(R) - base).max(0) as u64;
     let largest = alloc::LARGEST.load(R);
     // after load: only a generous safety cap for the walk
@@ -106,7 +127,7 @@ fn run_task(kind: u32, budget: u64, bytes: &[u8]) {
         Loaded::Err(e) => send_result(1, peak, largest, 0, &format!("{}: {}", err_variant(&e), e)),
         Loaded::Panic(m) => send_result(2, peak, largest, 0, &m),
         Loaded::Ok(f) => {
-            if kind == KIND_LOAD {
+            if kind == KIND_LOAD || kind == KIND_LOAD_FILE {
                 drop(f);
                 send_result(0, peak, largest, 0, "");
                 return;
